@@ -25,9 +25,39 @@ import (
 	"time"
 
 	pf "github.com/weedbox/pokerface"
+	"github.com/weedbox/pokerface/competition"
+	"github.com/weedbox/pokerface/match"
 	sm "github.com/weedbox/pokerface/seat_manager"
 	"github.com/weedbox/pokerface/table"
 )
+
+// The MIRROR: in a competition the table manager (competition/table_manager.go) turns every table state into seat
+// changes (who left; where dealer, small blind and big blind sit) and match.Table (match/table.go) applies them to
+// its own seat manager, which the dispatcher uses to find free seats.  The driver runs both next to the real table:
+// every state at rest goes through TableManager.UpdateTableState, the seat changes it reports go to
+// match.Table.ApplySeatChanges, joins are mirrored with match.Table.Join.
+type fakeTableBackend struct{ ts *table.State }
+
+func (f *fakeTableBackend) CreateTable(o *table.Options) (*table.State, error) { return f.ts, nil }
+func (f *fakeTableBackend) ActivateTable(string) error                         { return nil }
+func (f *fakeTableBackend) SetJoinable(string, bool) error                     { return nil }
+func (f *fakeTableBackend) ReleaseTable(string) error                          { return nil }
+func (f *fakeTableBackend) ReserveSeat(string, int, *competition.PlayerInfo) (int, error) {
+	return -1, nil
+}
+func (f *fakeTableBackend) OnTableUpdated(func(*table.State)) {}
+
+func projMirror(m *sm.SeatManager) M {
+	pj := projSeat(m)
+	for i, s := range pj["seat"].([]M) {
+		if st := m.GetSeat(i); st != nil && st.Player != nil {
+			if v, ok := st.Player.(string); ok {
+				s["player"] = pidOf(v)
+			}
+		}
+	}
+	return pj
+}
 
 func pidOf(id string) int {
 	n, err := strconv.Atoi(id)
@@ -74,6 +104,52 @@ type tblRun struct {
 	opts  *table.Options
 	// the game state with which the last hand closed, seen while waiting for the table to rest (nil: no hand closed during the call)
 	closed *pf.GameState
+	// the mirror
+	tm     competition.TableManager
+	mt     *match.Table
+	lastSC *match.SeatChanges
+	ems    []M // every state the table emitted since the last line, as the table manager saw it, with the seat changes it reported
+}
+
+// feed: one emitted table state goes through the table manager (competition.TableManager.UpdateTableState), which
+// reports seat changes to the mirror (match.Table.ApplySeatChanges)
+func (tr *tblRun) feed(ts *table.State) {
+	tr.lastSC = nil
+	res := ""
+	func() {
+		defer func() {
+			if rec := recover(); rec != nil {
+				res = "PANIC"
+			}
+		}()
+		if err := tr.tm.UpdateTableState(ts); err != nil {
+			res = err.Error()
+		}
+	}()
+	seats := []int{}
+	for s := range ts.Players {
+		seats = append(seats, s)
+	}
+	sort.Ints(seats)
+	pl := []M{}
+	for _, s := range seats {
+		p := ts.Players[s]
+		pos := append([]string{}, p.Positions...)
+		sort.Strings(pos)
+		pl = append(pl, M{"seat": p.SeatID, "id": pidOf(p.ID), "pos": pos})
+	}
+	sc := M{"has": tr.lastSC != nil, "dealer": -1, "sb": -1, "bb": -1, "left": []int{}}
+	if tr.lastSC != nil {
+		left := []int{}
+		for s, st := range tr.lastSC.Seats {
+			if st == "left" {
+				left = append(left, s)
+			}
+		}
+		sort.Ints(left)
+		sc["dealer"], sc["sb"], sc["bb"], sc["left"] = tr.lastSC.Dealer, tr.lastSC.SB, tr.lastSC.BB, left
+	}
+	tr.ems = append(tr.ems, M{"hasG": ts.GameState != nil, "players": pl, "sc": sc, "res": res})
 }
 
 func (tr *tblRun) project() M {
@@ -97,6 +173,12 @@ func (tr *tblRun) project() M {
 		out["G"] = projHoldem(ts.GameState)
 		out["deck"] = cards(ts.GameState.Meta.Deck)
 	}
+	if tr.ems == nil {
+		tr.ems = []M{}
+	}
+	out["ems"] = tr.ems
+	tr.ems = nil
+	out["mirror"] = projMirror(tr.mt.SeatManager())
 	out["hasClosed"] = tr.closed != nil
 	out["closedG"] = M{}
 	out["closedDeck"] = []int{}
@@ -128,7 +210,8 @@ func (tr *tblRun) emitWith(kind, op string, seat, id int, x int64, err error, ex
 func (tr *tblRun) drain() {
 	for {
 		select {
-		case <-tr.ch:
+		case ts := <-tr.ch:
+			tr.feed(ts)
 		default:
 			return
 		}
@@ -163,6 +246,7 @@ func (tr *tblRun) settle() {
 		select {
 		case ts := <-tr.ch:
 			parked = 0
+			tr.feed(ts)
 			if ts.Status == "closed" {
 				tr.rest()
 				return
@@ -227,6 +311,13 @@ func tableRun(o *potsOut, run int, r *rand.Rand) (wasStuck bool) {
 	t := table.NewTable(opts, table.WithBackend(table.NewNativeBackend()))
 	tr := &tblRun{o: o, run: run, t: t, ch: make(chan *table.State, 1<<16), opts: opts}
 	t.OnStateUpdated(func(ts *table.State) { tr.ch <- ts })
+	tr.tm = competition.NewTableManager(competition.NewOptions(), &fakeTableBackend{t.GetState().Clone()})
+	tr.tm.CreateTable()
+	tr.mt = match.NewTable(opts.MaxSeats)
+	tr.tm.OnSeatChanged(func(ts *table.State, sc *match.SeatChanges) {
+		tr.lastSC = sc
+		tr.mt.ApplySeatChanges(sc)
+	})
 	defer func() { wasStuck = tr.stuck }()
 	tr.emit("reset", "new", -1, -1, 0, nil)
 	nextID := 1
@@ -248,6 +339,9 @@ func tableRun(o *potsOut, run int, r *rand.Rand) (wasStuck bool) {
 		nextID++
 		bank := bankOf()
 		got, err := t.Join(seat, &table.PlayerInfo{ID: strconv.Itoa(id), Bankroll: bank})
+		if err == nil {
+			tr.mt.Join(got, strconv.Itoa(id)) // the mirror learns of the new player the way the dispatcher tells it
+		}
 		tr.drain()
 		tr.emit("main", "T.Join", seat, id, bank, err)
 		if err == nil && sitIn {
@@ -262,6 +356,12 @@ func tableRun(o *potsOut, run int, r *rand.Rand) (wasStuck bool) {
 	}
 	if r.Intn(6) == 0 {
 		join(perm[0], true) // an occupied seat: refused
+	}
+	if n > 2 && r.Intn(8) == 0 {
+		// somebody leaves before the first hand: the table has no game state yet
+		e := t.Leave(perm[n-1])
+		tr.drain()
+		tr.emit("main", "T.Leave", perm[n-1], -1, 0, e)
 	}
 	err := t.Start()
 	started = true
